@@ -283,6 +283,88 @@ fn leaf_expectation(n: usize, states: &[State], dv_mode: u8) -> (Result<String, 
     (res, class, unreadable)
 }
 
+
+/// Characters around the payload of "number with surrounding whitespace" contents: Unicode white space (what
+/// `str::trim` removes, and what ParseLoader is documented to remove) and two look-alikes that are not.
+const WS: [char; 17] = [
+    ' ', '\t', '\n', '\r', '\x0b', '\x0c', '\u{85}', '\u{a0}', '\u{1680}', '\u{2003}', '\u{2028}', '\u{2029}', '\u{202f}', '\u{205f}', '\u{3000}', '\u{200b}', '\u{feff}',
+];
+
+/// The loaders the crate ships, called on the same bytes (borrowed and owned): BytesLoader returns exactly the bytes,
+/// StringLoader exactly the text (an error iff it is not UTF-8, nothing trimmed), ParseLoader what `FromStr` gives
+/// for the text without its surrounding white space (an error iff that fails), whatever the target type; and the
+/// `String` asset loaded through a cache agrees.
+fn builtin_loaders(bytes: &[u8], variant: Variant) -> Option<(String, String)> {
+    use assets_manager::loader::{BytesLoader, ParseLoader, StringLoader};
+    use assets_manager::SharedBytes;
+    let text = std::str::from_utf8(bytes).ok();
+    macro_rules! parse_check {
+        ($t:ty, $cow:expr, $eq:expr) => {{
+            let want: Option<$t> = text.and_then(|s| s.trim().parse::<$t>().ok());
+            let got: Option<$t> = <ParseLoader as Loader<$t>>::load($cow, "x").ok();
+            let same = match (&want, &got) {
+                (Some(a), Some(b)) => $eq(a, b),
+                (None, None) => true,
+                _ => false,
+            };
+            if !same {
+                return Some((
+                    "builtin-parse-loader".into(),
+                    format!("ParseLoader as Loader<{}> on {}: gave {:?}, FromStr on the trimmed text gives {:?}", stringify!($t), render_bytes(bytes), got, want),
+                ));
+            }
+        }};
+    }
+    for owned in [false, true] {
+        let cow = || if owned { Cow::Owned(bytes.to_vec()) } else { Cow::Borrowed(bytes) };
+        let v = <BytesLoader as Loader<Vec<u8>>>::load(cow(), "x").ok();
+        let b = <BytesLoader as Loader<Box<[u8]>>>::load(cow(), "x").ok();
+        let sb = <BytesLoader as Loader<SharedBytes>>::load(cow(), "x").ok();
+        if v.as_deref() != Some(bytes) || b.as_deref() != Some(bytes) || sb.as_deref() != Some(bytes) {
+            return Some(("builtin-bytes-loader".into(), format!("BytesLoader on {} (owned: {owned}) did not return exactly these bytes", render_bytes(bytes))));
+        }
+        let st = <StringLoader as Loader<String>>::load(cow(), "x").ok();
+        let bs = <StringLoader as Loader<Box<str>>>::load(cow(), "x").ok();
+        let ss = <StringLoader as Loader<SharedString>>::load(cow(), "x").ok();
+        if st.as_deref() != text || bs.as_deref() != text || ss.as_deref() != text {
+            return Some((
+                "builtin-string-loader".into(),
+                format!("StringLoader on {} (owned: {owned}) gave {:?} / {:?} / {:?}, the text is {:?}", render_bytes(bytes), st, bs, ss.as_deref(), text),
+            ));
+        }
+        parse_check!(u64, cow(), |a: &u64, b: &u64| a == b);
+        parse_check!(i32, cow(), |a: &i32, b: &i32| a == b);
+        parse_check!(f64, cow(), |a: &f64, b: &f64| a.to_bits() == b.to_bits());
+        parse_check!(bool, cow(), |a: &bool, b: &bool| a == b);
+        parse_check!(char, cow(), |a: &char, b: &char| a == b);
+        parse_check!(std::net::IpAddr, cow(), |a: &std::net::IpAddr, b: &std::net::IpAddr| a == b);
+    }
+    // the `String` asset (extension "txt") through a cache and the given FileContent variant
+    let src = MemSource::new(false);
+    src.tree().put("s", "txt", bytes.to_vec(), if bytes.len() > 4096 && variant == Variant::Slice { Variant::Owned } else { variant });
+    let cache = AssetCache::with_source(src.handle());
+    let got = cache.load::<String>("s").ok().map(|h| h.read().clone());
+    let got2 = cache.load::<SharedString>("s").ok().map(|h| h.read().to_string());
+    if got.as_deref() != text || got2.as_deref() != text {
+        return Some((
+            "builtin-string-asset".into(),
+            format!("load::<String> / load::<SharedString> of a file holding {} gave {:?} / {:?}, the text is {:?}", render_bytes(bytes), got, got2, text),
+        ));
+    }
+    None
+}
+
+/// Whether the content is a parseable payload between non-ASCII white space
+fn unicode_ws_around_payload(bytes: &[u8]) -> bool {
+    match std::str::from_utf8(bytes) {
+        Ok(s) => {
+            let t = s.trim();
+            !t.is_empty() && t.len() < s.len() && (t.parse::<f64>().is_ok() || t.parse::<bool>().is_ok()) && s.chars().any(|c| !c.is_ascii() && c.is_whitespace())
+        }
+        Err(_) => false,
+    }
+}
+
 pub struct C03;
 
 fn bytes_strategy(thorough: bool) -> impl Strategy<Value = Vec<u8>> {
@@ -292,6 +374,21 @@ fn bytes_strategy(thorough: bool) -> impl Strategy<Value = Vec<u8>> {
         3 => any::<u8>().prop_map(|b| vec![b]),
         3 => "[ \\t\\n]{0,3}[a-z0-9]{0,8}[ \\t\\n]{0,3}".prop_map(|s| s.into_bytes()),
         3 => prop::collection::vec(any::<u8>(), 0..40),
+        // a payload the built-in ParseLoader understands, between white space of every kind (and look-alikes)
+        3 => (
+            prop::collection::vec(0usize..WS.len(), 0..3),
+            prop_oneof![
+                "[0-9]{1,6}".boxed(), "-?[0-9]{1,3}".boxed(), "true|false".boxed(), "-?[0-9]{1,3}\\.[0-9]{1,3}".boxed(),
+                "127\\.0\\.0\\.[0-9]{1,2}".boxed(), "[a-z]".boxed(), "[0-9]{1,3} [0-9]{1,3}".boxed(), "nan|inf|1e3".boxed(),
+            ],
+            prop::collection::vec(0usize..WS.len(), 0..3),
+        )
+            .prop_map(|(a, core, b)| {
+                let mut s: String = a.iter().map(|&i| WS[i]).collect();
+                s.push_str(&core);
+                s.extend(b.iter().map(|&i| WS[i]));
+                s.into_bytes()
+            }),
         // undecodable: starts with '!'
         4 => prop::collection::vec(any::<u8>(), 0..10).prop_map(|mut v| { v.insert(0, b'!'); v }),
         1 => (any::<u8>(), (big / 2)..big).prop_map(|(b, n)| (0..n).map(|i| b.wrapping_add((i % 251) as u8).max(b'"')).collect()),
@@ -337,12 +434,13 @@ impl Prop for C03 {
          load / load_owned / load_expect / contains / get_cached at any chain level). Oracle computed from the statement: first declared extension that is present \
          and decodable wins and the loader sees exactly its bytes and extension; otherwise error class Conversion > Io(other) > NotFound > no-default, default_value \
          receives that class and decides; errors name the requested id and nest once per compound level; failures cache nothing; cached levels shadow later edits, load_owned follows the source. \
+         Every content of the case also goes through the loaders the crate ships (BytesLoader, StringLoader, ParseLoader for u64 / i32 / f64 / bool / char / IpAddr, borrowed and owned; the String and SharedString assets through a cache): exactly the bytes / exactly the text / FromStr of the text without its surrounding (Unicode) white space. \
          non-trivial = >= 2 declared extensions in different states, or a failing load followed by a successful one on the same level, or depth >= 2; distinct = different canonical JSON"
             .into()
     }
 
     fn assumptions(&self) -> Vec<String> {
-        vec!["the loader under test is a harness loader (decodes unless the first byte is '!'); sources deliver bytes through every FileContent variant".into()]
+        vec!["the loader under test in the histories is a harness loader (decodes unless the first byte is '!'); sources deliver bytes through every FileContent variant; the built-in loaders are checked per content, not per history".into(), "'white space' in ParseLoader's documentation is taken to mean what str::trim removes (Unicode White_Space), as the pinned implementation does".into()]
     }
 
     fn plan(&self, tier: Tier) -> Plan {
@@ -530,6 +628,24 @@ impl Prop for C03 {
                 }
             }
         }
+        // the loaders the crate ships, on every content of the case
+        let contents = c.init.iter().chain(c.steps.iter().filter_map(|s| match s {
+            Step::Edit { state, .. } => Some(state),
+            _ => None,
+        }));
+        let mut seen_ws = false;
+        for st in contents {
+            if let State::Present { bytes, variant } = st {
+                if let Some((sig, what)) = builtin_loaders(bytes, *variant) {
+                    out.fail(sig, what);
+                    return out;
+                }
+                seen_ws |= unicode_ws_around_payload(bytes);
+            }
+        }
+        if seen_ws {
+            out.label("builtin-loaders-unicode-whitespace");
+        }
         out.nontrivial = distinct_states || fail_then_ok || c.depth >= 2;
         if distinct_states {
             out.label("mixed-extension-states");
@@ -547,7 +663,7 @@ impl Prop for C03 {
     }
 
     fn required_labels(&self) -> Vec<&'static str> {
-        vec!["mixed-extension-states", "fail-then-repair", "depth>=2", "empty-extension-list"]
+        vec!["mixed-extension-states", "fail-then-repair", "depth>=2", "empty-extension-list", "builtin-loaders-unicode-whitespace"]
     }
 }
 
